@@ -41,6 +41,10 @@ class Prop(PropBase):
                 yield {"op": "r2c", "N": N, "rank": rank, "axis": axis, "dtype": rng.choice(DTYPES),
                        "kind": rng.choice(["random", "random", "tone"]), "w": rng.randint(1, max(1, (N - 1) // 2)),
                        "seed": rng.randrange(1 << 30)}
+        for N in ([65536, 100003] if quick else [65536, 100003, 262144, 2**20]):
+            for dt in ("float32", "float64"):
+                yield {"op": "r2c", "N": N, "rank": 1, "axis": 0, "dtype": dt, "kind": rng.choice(["random", "tone"]),
+                       "w": rng.randint(1, N // 2 - 1), "seed": rng.randrange(1 << 30)}
         for N in (0, 1, 5, 8):
             yield {"op": "r2c", "N": N, "rank": 1, "axis": 0, "dtype": "complex128", "kind": "random", "w": 1, "seed": N}
             yield {"op": "r2c", "N": N, "rank": 2, "axis": 1, "dtype": "complex64", "kind": "random", "w": 1, "seed": N}
@@ -87,7 +91,7 @@ class Prop(PropBase):
         out["_X"] = None
         # per-weight-vector error is computed in agree/spec from these sufficient statistics
         # (store the spectrum-side projection: y_full = ifft(h X) needs h; keep x and y small enough to return)
-        if xm.size <= 4096:
+        if xm.size <= 4096 or xm.ndim == 1:
             out["x"] = [float(v) for v in xm.reshape(N, -1)[:, 0]]
             out["y"] = [[float(v.real), float(v.imag)] for v in ym.reshape(M, -1)[:, 0]]
         out["scale"] = self_scale
